@@ -203,6 +203,22 @@ func (s *Server) Objects() []metav1.Object {
 	return out
 }
 
+// LogObjectsAt returns the objects (as stored in the log) that a snapshot
+// key -> rv refers to.
+func (s *Server) LogObjectsAt(snap Snap) []metav1.Object {
+	s.mu.Lock()
+	defer s.mu.Unlock()
+	var out []metav1.Object
+	for _, rv := range snap {
+		i := Atoi(rv) - 1
+		if i >= 0 && i < len(s.log) {
+			m, _ := meta.Accessor(s.log[i].Obj)
+			out = append(out, m)
+		}
+	}
+	return out
+}
+
 // LogCopy returns the event log.
 func (s *Server) LogCopy() []SEvent {
 	s.mu.Lock()
